@@ -7,7 +7,7 @@ use fnv::FnvHasher;
 use crate::data_model::Row;
 use crate::execution::{ColumnProvider, ColumnScope, ExecutionError, ExecutionResult, ExpressionTreeHash, ResultRow};
 use crate::execution::column_providers::{HashMapOwnedKeyColumnProvider, SingleColumnProvider};
-use crate::execution::expression_execution::{ExpressionExecutionEngine};
+use crate::execution::expression_execution::{EvaluationError, ExpressionExecutionEngine};
 use crate::execution::helpers::DistinctValues;
 use crate::helpers::IterExt;
 use crate::model::{Aggregate, AggregateStatement, ExpressionTree, Float, IntervalType, Value, ValueType};
@@ -454,6 +454,7 @@ impl GroupAggregator {
     pub fn update(&mut self, column_value: Value) -> ExecutionResult<Option<Value>> {
         match self {
             GroupAggregator::Sum(sum) => {
+                check_sum_overflow(sum, &column_value)?;
                 sum.modify_same_type_numeric_nullable(
                     &column_value,
                     |x, y| { *x += y },
@@ -465,6 +466,7 @@ impl GroupAggregator {
                 Ok(Some(sum))
             }
             GroupAggregator::Average { sum, count } => {
+                check_sum_overflow(sum, &column_value)?;
                 sum.modify_same_type_numeric_nullable(
                     &column_value,
                     |x, y| { *x += y },
@@ -482,17 +484,31 @@ impl GroupAggregator {
                 Ok(average)
             }
             GroupAggregator::StandardDeviation { sum, sum_square, count, is_variance } => {
+                let is_numeric = match &column_value {
+                    Value::Int(_) | Value::Float(_) | Value::Interval(_) => true,
+                    _ => false
+                };
+
                 let squared_column_value = column_value.map_numeric(
-                    |x| Some(x * x),
+                    |x| x.checked_mul(x),
                     |x| Some(x * x),
                     |x| {
                         if let Some(microseconds) = x.num_microseconds() {
-                            Some(IntervalType::microseconds(microseconds * microseconds))
+                            microseconds.checked_mul(microseconds).map(|squared| IntervalType::microseconds(squared))
                         } else {
-                            Some(IntervalType::milliseconds(x.num_milliseconds() * x.num_milliseconds()))
+                            x.num_milliseconds().checked_mul(x.num_milliseconds()).and_then(|squared| IntervalType::try_milliseconds(squared))
                         }
                     }
-                ).unwrap_or(Value::Null);
+                );
+
+                let squared_column_value = match squared_column_value {
+                    Some(squared_column_value) => squared_column_value,
+                    None if is_numeric => { return Err(ExecutionError::Expression(EvaluationError::IntegerOverflow)); }
+                    None => Value::Null
+                };
+
+                check_sum_overflow(sum, &column_value)?;
+                check_sum_overflow(sum_square, &squared_column_value)?;
 
                 sum.modify_same_type_numeric_nullable(
                     &column_value,
@@ -604,6 +620,21 @@ fn empty_aggregate_value(aggregate: &Aggregate) -> Value {
     match aggregate {
         Aggregate::Count(_, _) => Value::Int(0),
         _ => Value::Null
+    }
+}
+
+/// A running sum that leaves the range of its type is an error, not a wrapped around (or panicking) value
+fn check_sum_overflow(sum: &Value, value: &Value) -> ExecutionResult<()> {
+    let overflow = match (sum, value) {
+        (Value::Int(x), Value::Int(y)) => x.checked_add(*y).is_none(),
+        (Value::Interval(x), Value::Interval(y)) => x.checked_add(y).is_none(),
+        _ => false
+    };
+
+    if overflow {
+        Err(ExecutionError::Expression(EvaluationError::IntegerOverflow))
+    } else {
+        Ok(())
     }
 }
 
